@@ -30,6 +30,65 @@ var base = time.Date(2020, 3, 1, 12, 0, 0, 0, time.UTC)
 
 // rawOrNil keeps a model answer printable: an empty or invalid raw message (the model answered
 // with an error) must not make the whole result unwritable.
+// distributeShift pushes a SHIFT by off down to the table columns of a composite expression
+// (a sub-expression that is a table column as a whole is not taken apart).
+func distributeShift(n *gen.Node, off time.Duration, cols []expr.Expr) *gen.Node {
+	ns := n.Build().String()
+	for _, c := range cols {
+		if c.String() == ns {
+			// a table column as a whole
+			return &gen.Node{Kind: "shift", Off: off, Kids: []*gen.Node{n}}
+		}
+	}
+	switch n.Kind {
+	case "bin", "if":
+		c := *n
+		c.Kids = make([]*gen.Node, len(n.Kids))
+		for i, k := range n.Kids {
+			c.Kids[i] = distributeShift(k, off, cols)
+		}
+		return &c
+	case "const":
+		return n
+	}
+	return &gen.Node{Kind: "shift", Off: off, Kids: []*gen.Node{n}}
+}
+
+// setPeriods is the content of a decoded sequence without its frame: period end -> cells, for
+// the periods in which at least one cell is set.
+func setPeriods(dec interface{}, res time.Duration) map[string]interface{} {
+	b, _ := json.Marshal(dec)
+	var d struct {
+		Cells [][]map[string]interface{} `json:"cells"`
+		Hi    string                     `json:"hi"`
+	}
+	out := map[string]interface{}{}
+	if json.Unmarshal(b, &d) != nil {
+		return out
+	}
+	var hi int64
+	fmt.Sscan(d.Hi, &hi)
+	for p, cells := range d.Cells {
+		set := false
+		for _, c := range cells {
+			for _, v := range c {
+				if v != nil {
+					set = true
+				}
+			}
+		}
+		if set {
+			out[fmt.Sprint(hi-int64(p)*int64(res))] = cells
+		}
+	}
+	return out
+}
+
+func sameAny(a, b interface{}) bool {
+	bb, _ := json.Marshal(b)
+	return sameJSON(a, bb)
+}
+
 func rawOrNil(b json.RawMessage) interface{} {
 	if len(b) == 0 || !json.Valid(b) {
 		return nil
@@ -204,7 +263,21 @@ func caseSubMerge(ctx *hk.RunCtx, r *hk.Rng, idx uint64, otherRes time.Duration)
 			n = &gen.Node{Kind: "bin", Name: "+", Kids: []*gen.Node{n, {Kind: "const", Const: 2}}}
 		}
 	case 4:
-		n = &gen.Node{Kind: "shift", Off: -time.Duration(r.Range(0, 4)) * otherRes, Kids: []*gen.Node{pickIn()}}
+		// the wrapped expression is a single table column or a composite assembled from several
+		// (then its width differs from the width of each column it is sub-merged from)
+		var w *gen.Node
+		switch r.Intn(5) {
+		case 0, 1:
+			w = pickIn()
+		case 2, 3:
+			w = &gen.Node{Kind: "bin", Name: hk.Pick(r, []string{"+", "-", "*", "/"}), Kids: []*gen.Node{pickIn(), pickIn()}}
+			if r.Chance(1, 4) {
+				w = &gen.Node{Kind: "bin", Name: "+", Kids: []*gen.Node{w, pickIn()}}
+			}
+		default:
+			w = &gen.Node{Kind: "if", C: r.Intn(len(gen.Conds)), Kids: []*gen.Node{{Kind: "bin", Name: "+", Kids: []*gen.Node{pickIn(), pickIn()}}}}
+		}
+		n = &gen.Node{Kind: "shift", Off: -time.Duration(r.Range(0, 4)) * otherRes, Kids: []*gen.Node{w}}
 		if r.Chance(1, 3) {
 			n = &gen.Node{Kind: "bin", Name: "-", Kids: []*gen.Node{pickIn(), n}}
 		}
@@ -246,6 +319,20 @@ func caseSubMerge(ctx *hk.RunCtx, r *hk.Rng, idx uint64, otherRes time.Duration)
 		stride = time.Duration(r.Range(1, scale-1)) * otherRes
 	}
 	var out encoding.Sequence
+	// C05 oracle on the implementation alone (SHIFT of a composite at the top): SHIFT distributes
+	// over the operators, so sub-merging SHIFT(x op y) from the table columns equals sub-merging
+	// SHIFT(x) op SHIFT(y) from the same columns (same byte layout, same bounds)
+	var outRef encoding.Sequence
+	var dE expr.Expr
+	var dSms []expr.SubMerge
+	if n.Kind == "shift" && n.Off != 0 && (n.Kids[0].Kind == "bin" || n.Kids[0].Kind == "if") {
+		dE = distributeShift(n.Kids[0], n.Off, inEs).Build()
+		if dE.Validate() == nil && dE.EncodedWidth() == e.EncodedWidth() {
+			dSms = dE.SubMergers(inEs)
+		} else {
+			dE = nil
+		}
+	}
 	rounds := r.Range(1, 3)
 	for round := 0; round < rounds; round++ {
 		meta := gen.GenPoint(r, fields)
@@ -277,6 +364,9 @@ func caseSubMerge(ctx *hk.RunCtx, r *hk.Rng, idx uint64, otherRes time.Duration)
 		}
 		if e.Shift() != 0 {
 			ctx.Res.Hit("submerge:shift")
+			if n.Kind == "shift" && n.Kids[0].Kind != "field" && n.Kids[0].Kind != "agg" && n.Kids[0].Kind != "avg" {
+				ctx.Res.Hit("submerge:shift-of-composite")
+			}
 		}
 		next := out
 		if pn := hk.Recover(func() {
@@ -293,6 +383,22 @@ func caseSubMerge(ctx *hk.RunCtx, r *hk.Rng, idx uint64, otherRes time.Duration)
 		for i := range snaps {
 			if !snaps[i].untouched() {
 				ctx.Res.Disagree(hk.Disagreement{Kind: "property", Case: req, Detail: "SubMerge modified its source operand", PropertyFails: true, Index: idx})
+			}
+		}
+		if dE != nil {
+			if pn := hk.Recover(func() {
+				for i, sm := range dSms {
+					if sm == nil {
+						continue
+					}
+					outRef = outRef.SubMerge(inSeqs[i], meta.Meta(), resn, otherRes, dE, inEs[i], sm, asOf, until, stride)
+				}
+			}); pn == nil {
+				ctx.Res.Hit("submerge:shift-distributes")
+				if a, b := decodeSeq(n, e, next), decodeSeq(n, e, outRef); !sameAny(setPeriods(a, resn), setPeriods(b, resn)) {
+					ctx.Res.Disagree(hk.Disagreement{Kind: "property", Case: req, Impl: a, Model: b, PropertyFails: true, Index: idx,
+						Detail: fmt.Sprintf("sub-merging %s from the table columns differs from sub-merging %s from the same columns: the shifted periods of a composite are not read from where they are stored", e, dE)})
+				}
 			}
 		}
 		impl := decodeSeq(n, e, next)
